@@ -1,5 +1,5 @@
 (* The definitions translated from the current funtracks sources below the user actions
-   (Gen/Core_gen.v, rewritten by harness/translate_core.py on every run):
+   (Gen/Core*_gen.v, rewritten by harness/translate_core.py on every run):
      data_model/solution_tracks.py   get_next_track_id, get_next_lineage_id, get_track_id, get_lineage_id,
                                      get_track_neighbors, has_track_id_at_time
      data_model/tracks.py            _get_new_node_ids, undo, redo
@@ -25,1072 +25,16 @@
      registry is not empty ([del_node_needs_registry]; cfg_ok gives the latter).  [inverse_dom] collects what
      `action.inverse()` needs per class.
 
+   One file per source group, so that a property only depends on the sources it talks about:
+     Proofs/CoreTieBase.v      shared small facts (no generated file)
+     Proofs/CoreTieQueries.v   solution_tracks.py   <- Gen/CoreQueries_gen.v only
+     Proofs/CoreTieTracks.v    tracks.py            <- Gen/CoreTracks_gen.v only
+     Proofs/CoreTieHistory.v   PyRt3.hist_undo / hist_redo vs Gen/History_gen.v (no core generated file)
+     Proofs/CoreTieAnnot.v     _track_annotator.py  <- Gen/CoreAnnot_gen.v, Gen/CoreQueries_gen.v
+     Proofs/CoreTieActions.v   actions/*.py         <- Gen/CoreActions_gen.v, CoreAnnot_gen.v, CoreQueries_gen.v
+   This file only re-exports them (and Gen/Core_gen.v, which re-exports the four generated files).
+
    The proofs never mention a generated variable name: the generated loop bodies are picked up from
    the goal, so a renaming of a Python local does not touch them. *)
-From Coq Require Import ZArith List Bool Lia Arith.
-From FT Require Import Base.Dict Model.Edit Model.PyRt Model.PyRt3 Gen.Core_gen.
-From FT Require Import Proofs.DictLemmas Proofs.EditInv Proofs.EditGraph Proofs.EditWalk.
-From FT Require Proofs.EditBook Proofs.EditFrame Gen.History_gen.
-Import ListNotations.
-Open Scope Z_scope.
-
-(* ================================================================== *)
-(* 0. small facts                                                      *)
-(* ================================================================== *)
-Lemma len_eq0 : forall A (l : list A), (Z.of_nat (length l) =? 0) = match l with [] => true | _ => false end.
-Proof. destruct l; reflexivity. Qed.
-
-Lemma set_set_eq {V} k (v v' : V) d : set k v (set k v' d) = set k v d.
-Proof.
-  induction d as [|[k' w] r IH]; cbn; [now rewrite Z.eqb_refl|].
-  destruct (k =? k') eqn:E; cbn; rewrite ?Z.eqb_refl, ?E; [reflexivity|now rewrite IH].
-Qed.
-Lemma set_same {V} k (v : V) d : lookup k d = Some v -> set k v d = d.
-Proof.
-  induction d as [|[k' w] r IH]; cbn; [discriminate|].
-  destruct (k =? k') eqn:E; intros H.
-  - apply Z.eqb_eq in E. subst k'. now inversion H.
-  - now rewrite IH.
-Qed.
-Lemma del_set_eq {V} k (v : V) d : del k (set k v d) = del k d.
-Proof.
-  induction d as [|[k' w] r IH]; cbn; [now rewrite Z.eqb_refl|].
-  destruct (k =? k') eqn:E; cbn; rewrite ?Z.eqb_refl, ?E; [reflexivity|now rewrite IH].
-Qed.
-
-(* record eta for the lookups: writing back what is there changes nothing *)
-Lemma set_trk_book_same st : set_trk_book st (trk_book (bk st)) = st.
-Proof. destruct st as [g0 sg f [tb lb mt ml] u r lg c]. reflexivity. Qed.
-Lemma set_lin_book_same st : set_lin_book st (lin_book (bk st)) = st.
-Proof. destruct st as [g0 sg f [tb lb mt ml] u r lg c]. reflexivity. Qed.
-Lemma upd_bk_same st : upd_bk st (bk st) = st.
-Proof. destruct st as [g0 sg f b u r lg c]. reflexivity. Qed.
-Lemma books_eta (b : books) : {| trk_book := trk_book b; lin_book := lin_book b; max_trk := max_trk b; max_lin := max_lin b |} = b.
-Proof. destruct b. reflexivity. Qed.
-
-Lemma zattr_has_node st n k z : zattr st n k = Some z -> has_node st n = true.
-Proof.
-  unfold zattr, attr, node_attrs, getd, has_node, haskey. destruct (lookup n (nodes (g st))); [reflexivity|discriminate].
-Qed.
-
-(* ================================================================== *)
-(* 1. data_model/solution_tracks.py                                    *)
-(* ================================================================== *)
-Theorem gen_get_next_track_id_eq : forall st, gen_get_next_track_id st = Ok (next_trk st) st.
-Proof. reflexivity. Qed.
-Theorem gen_get_next_lineage_id_eq : forall st, gen_get_next_lineage_id st = Ok (next_lin st) st.
-Proof. reflexivity. Qed.
-
-(* the model of tracks.get_track_id is PyRt.py_get_track_id (what the user-action translator maps it to) *)
-Theorem gen_get_track_id_eq : forall st n, gen_get_track_id st n = py_get_track_id st n.
-Proof.
-  intros. unfold gen_get_track_id, py_get_track_id, py_node_attr_req_z, key_is_none.
-  destruct (zattr st n KTrack); reflexivity.
-Qed.
-
-(* the model of tracks.get_lineage_id(n) is [zattr st n KLin] *)
-Theorem gen_get_lineage_id_char : forall st n,
-  gen_get_lineage_id st n = if has_node st n then Ok (zattr st n KLin) st else Err EKey st.
-Proof.
-  intros. unfold gen_get_lineage_id, py_node_attr_get_z, key_is_none. destruct (has_node st n); reflexivity.
-Qed.
-Theorem gen_get_lineage_id_eq : forall st n, has_node st n = true -> gen_get_lineage_id st n = Ok (zattr st n KLin) st.
-Proof. intros st n H. rewrite gen_get_lineage_id_char, H. reflexivity. Qed.
-
-(* list.sort(key=get_time) is the model's stable insertion sort *)
-Lemma py_insert_by_time st x l : py_insert_by (fun n => time_of st n) x l = insert_by_time st x l.
-Proof. induction l as [|y r IH]; cbn; [reflexivity|]. now rewrite IH. Qed.
-Lemma py_sorted_by_time st l : py_sorted_by (fun n => time_of st n) l = sort_by_time st l.
-Proof.
-  unfold py_sorted_by, sort_by_time. generalize (@nil Z) as acc.
-  induction l as [|x r IH]; intros acc; cbn [fold_left]; [reflexivity|]. now rewrite py_insert_by_time, IH.
-Qed.
-
-Theorem gen_get_track_neighbors_eq : forall st T t,
-  gen_get_track_neighbors st T t = let '(s', r) := track_neighbors st T t in Ok r s'.
-Proof.
-  intros st T t. unfold gen_get_track_neighbors, track_neighbors, haskey, py_getitem.
-  destruct (lookup T (trk_book (bk st))) as [l|] eqn:E; cbn [negb bind]; [|reflexivity].
-  rewrite len_eq0. destruct l as [|x r]; [reflexivity|]. cbn [bind]. rewrite E. cbn [bind].
-  rewrite py_sorted_by_time.
-  set (l' := sort_by_time st (x :: r)).
-  set (s' := set_trk_book st (set T l' (trk_book (bk st)))).
-  match goal with |- context [py_for_brk _ _ _ ?f] => set (F := f) end.
-  assert (L : forall l p, py_for_brk l (p, None) s' F = Ok (scan_neighbors st t l p) s').
-  { induction l as [|c q IH]; intros p; cbn [py_for_brk scan_neighbors]; [reflexivity|].
-    unfold F at 1. change (time_of s' c) with (time_of st c).
-    destruct (time_of st c <? t); cbn [bind fst snd]; [apply IH|].
-    destruct (time_of st c >? t); cbn [bind fst snd]; [reflexivity|apply IH]. }
-  rewrite L. cbn [bind]. destruct (scan_neighbors st t l' None). reflexivity.
-Qed.
-
-Lemma memz_map_time (f : Z -> Z) t l : memz t (map f l) = existsb (fun n => f n =? t) l.
-Proof. unfold memz. induction l as [|x r IH]; cbn; [reflexivity|]. now rewrite IH, Z.eqb_sym. Qed.
-
-Theorem gen_has_track_id_at_time_eq : forall st T t,
-  gen_has_track_id_at_time st T t = Ok (has_track_at st T t) st.
-Proof.
-  intros. unfold gen_has_track_id_at_time, has_track_at.
-  destruct (lookup T (trk_book (bk st))) as [[|x r]|]; try reflexivity.
-  now rewrite memz_map_time.
-Qed.
-
-(* ================================================================== *)
-(* 2. data_model/tracks.py                                             *)
-(* ================================================================== *)
-Lemma list_set_app : forall pre x r v, list_set (pre ++ x :: r) (length pre) v = pre ++ v :: r.
-Proof. induction pre as [|y p IH]; intros; cbn; [reflexivity|]. now rewrite IH. Qed.
-
-(* _get_new_node_ids: the fuel of the hand model -- or any larger one -- is enough: the collision loop
-   stops on an unused id before it runs out (pigeonhole, EditBook.skip_used_spec) *)
-Theorem gen_get_new_node_ids_eq : forall st n fuel, (S (length (nodes (g st))) <= fuel)%nat ->
-  gen_get_new_node_ids fuel st (Z.of_nat n) = let '(s', ids) := get_new_node_ids st n in Ok ids s'.
-Proof.
-  intros st n fuel Hfuel. unfold gen_get_new_node_ids, get_new_node_ids, py_range, py_enumerate.
-  rewrite Nat2Z.id, map_map.
-  set (ids := map (fun i => nctr st + Z.of_nat i) (seq 0 n)).
-  change (nctr st + Z.of_nat n) with (nctr st + Z.of_nat n).
-  match goal with |- context [py_for _ _ _ ?f] => set (F := f) end.
-  (* the collision loop *)
-  assert (W : forall k id c id' c' (s0 : state) k', skip_used k st id c = (id', c') -> has_node st id' = false -> (k <= k')%nat ->
-              forall C B, C = (fun (i : Z) (s : state) => has_node s i) ->
-              B = (fun (i : Z) (s : state) => Ok (nctr s) (upd_nctr s (nctr s + 1))) ->
-              py_while_from s0 k' id (upd_nctr st c) C B = Ok id' (upd_nctr st c')).
-  { induction k as [|k IH]; intros id c id' c' s0 k' Hs Hf Hk C B -> ->; cbn [skip_used] in Hs.
-    - inversion Hs; subst. destruct k'; cbn [py_while_from]; change (has_node (upd_nctr st c') id') with (has_node st id'); now rewrite Hf.
-    - destruct (has_node st id) eqn:Ei.
-      + destruct k' as [|k']; [lia|]. cbn [py_while_from]. change (has_node (upd_nctr st c) id) with (has_node st id). rewrite Ei.
-        cbn [bind]. change (upd_nctr (upd_nctr st c) (nctr (upd_nctr st c) + 1)) with (upd_nctr st (c + 1)).
-        change (nctr (upd_nctr st c)) with c.
-        apply (IH c (c + 1) id' c' s0 k' Hs Hf ltac:(lia) _ _ eq_refl eq_refl).
-      + inversion Hs; subst. destruct k'; cbn [py_while_from]; change (has_node (upd_nctr st c') id') with (has_node st id'); now rewrite Ei. }
-  (* the loop over the ids *)
-  assert (L : forall rest pre c r' c', new_ids_loop st rest c = (r', c') -> (forall i, In i rest -> i < c) ->
-              py_for (combine (map Z.of_nat (seq (length pre) (length rest))) rest) (pre ++ rest) (upd_nctr st c) F
-              = Ok (pre ++ r') (upd_nctr st c')).
-  { induction rest as [|i r IH]; intros pre c r' c' Hl Hlt; cbn [new_ids_loop] in Hl.
-    - inversion Hl; subst. reflexivity.
-    - destruct (skip_used (S (length (nodes (g st)))) st i c) as [i1 c1] eqn:Es.
-      destruct (new_ids_loop st r c1) as [r1 c2] eqn:El. inversion Hl; subst. clear Hl.
-      destruct (EditBook.skip_used_spec st i c i1 c1 (Hlt i (or_introl eq_refl)) Es) as (Hfresh & Hc & _).
-      apply EditBook.has_node_false in Hfresh.
-      cbn [length seq map combine py_for]. unfold F at 1. cbn beta iota. unfold py_while.
-      rewrite (W _ _ _ _ _ (upd_nctr st c) fuel Es Hfresh Hfuel _ _ eq_refl eq_refl). cbn [bind].
-      unfold py_list_setitem. rewrite app_length. cbn [length].
-      replace ((0 <=? Z.of_nat (length pre)) && (Z.of_nat (length pre) <? Z.of_nat (length pre + S (length r)))) with true
-        by (symmetry; apply andb_true_iff; split; [apply Z.leb_le|apply Z.ltb_lt]; lia).
-      rewrite Nat2Z.id, list_set_app. cbn [bind].
-      specialize (IH (pre ++ [i1]) c1 r1 c' El (fun x Hx => Z.lt_le_trans _ _ _ (Hlt x (or_intror Hx)) Hc)).
-      rewrite app_length in IH. cbn [length] in IH. rewrite Nat.add_1_r, <- !app_assoc in IH. exact IH. }
-  destruct (new_ids_loop st ids (nctr st + Z.of_nat n)) as [ids' c'] eqn:El.
-  change (upd_nctr st (nctr st + Z.of_nat n)) with (upd_nctr st (nctr st + Z.of_nat n)).
-  pose proof (L ids [] _ _ _ El) as L0. cbn [length app] in L0. rewrite L0.
-  - reflexivity.
-  - intros i Hi. unfold ids in Hi. apply in_map_iff in Hi. destruct Hi as (j & <- & Hj). apply in_seq in Hj. lia.
-Qed.
-(* with exactly the hand model's fuel *)
-Corollary gen_get_new_node_ids_same_fuel : forall st n,
-  gen_get_new_node_ids (S (length (nodes (g st)))) st (Z.of_nat n) = let '(s', ids) := get_new_node_ids st n in Ok ids s'.
-Proof. intros. now apply gen_get_new_node_ids_eq. Qed.
-
-(* Tracks.undo / redo: call the history, emit refresh only when it says True *)
-Theorem gen_undo_eq : forall st, gen_undo st = undo st.
-Proof.
-  intros. unfold gen_undo, undo, hist_undo.
-  destruct (length (undo_stack st) <=? length (redo_stack st))%nat; [reflexivity|].
-  destruct (nth_error _ _); [|reflexivity]. destruct (inv_action st a); reflexivity.
-Qed.
-Theorem gen_redo_eq : forall st, gen_redo st = redo st.
-Proof.
-  intros. unfold gen_redo, redo, hist_redo. destruct (rev (redo_stack st)); [reflexivity|].
-  destruct (inv_action _ _); reflexivity.
-Qed.
-
-(* [hist_undo] / [hist_redo] (Model/PyRt3.v) and the code generated from actions/action_history.py: whenever
-   `action.inverse()` does not raise, the same answer and the same stacks, the new state under the
-   cursor.  ([inv_total] as in Proofs/HistoryGen.v; there the same statement is made for the model's
-   [undo] / [redo].) *)
-Module G := FT.Gen.History_gen.
-Definition inv_total (s : state) (a : action) : state * action :=
-  match inv_action s a with Ok b s' => (s', b) | Err _ s' => (s', a) end.
-Definition to_hist (st : state) : G.hist state action :=
-  {| G.cur := st; G.undo_stack := undo_stack st; G.redo_stack := redo_stack st |}.
-
-Theorem hist_undo_generated : forall st dA,
-  let gr := G.undo state action inv_total dA (to_hist st) in
-  match hist_undo st with
-  | Ok b s' => snd gr = b /\ undo_stack s' = G.undo_stack _ _ (fst gr) /\ redo_stack s' = G.redo_stack _ _ (fst gr) /\
-               (b = true -> upd_hist (G.cur _ _ (fst gr)) (undo_stack s') (redo_stack s') = s')
-  | Err _ _ => True
-  end.
-Proof.
-  intros st dA. unfold hist_undo, G.undo, G.undo_pointer, to_hist. cbn [G.undo_stack G.redo_stack G.cur].
-  set (lu := length (undo_stack st)). set (lr := length (redo_stack st)).
-  destruct (Nat.leb_spec lu lr) as [Hle|Hgt].
-  - destruct (Z.ltb_spec (Z.of_nat lu - Z.of_nat lr - 1) 0) as [_|H]; [|lia]. cbn. repeat split; auto. discriminate.
-  - destruct (Z.ltb_spec (Z.of_nat lu - Z.of_nat lr - 1) 0) as [H|_]; [lia|].
-    replace (Z.to_nat (Z.of_nat lu - Z.of_nat lr - 1)) with (lu - lr - 1)%nat by lia.
-    destruct (nth_error (undo_stack st) (lu - lr - 1)) as [a|] eqn:En.
-    + rewrite (nth_error_nth _ _ dA En). unfold inv_total.
-      destruct (inv_action st a) as [b s1|e s1] eqn:Ei; cbn [bind]; [|exact I].
-      pose proof (EditFrame.aux_inv_action st a) as F. rewrite Ei in F. cbn [rstate] in F. destruct F as (F1 & F2 & _).
-      cbn. rewrite F1, F2. repeat split; auto.
-    + apply nth_error_None in En. fold lu in En. lia.
-Qed.
-
-Lemma rev_cons_last {A} (l : list A) b r' (d : A) : rev l = b :: r' -> last l d = b /\ removelast l = rev r'.
-Proof.
-  intros H. assert (E : l = rev r' ++ [b]) by (rewrite <- (rev_involutive l), H; reflexivity).
-  subst l. split; [apply last_last|apply removelast_last].
-Qed.
-
-(* redo pops before it inverts: the generated code runs `inverse` on the state it holds ([cur]); the model
-   on that state with the popped stack -- [inv_action] never looks at the stacks, so the theorem is stated
-   for the popped state *)
-Theorem hist_redo_generated : forall st dA,
-  let gr := G.redo state action inv_total dA (to_hist st) in
-  match rev (redo_stack st) with
-  | [] => hist_redo st = Ok false st /\ snd gr = false
-  | b :: r' =>
-      snd gr = true /\ G.undo_stack _ _ (fst gr) = undo_stack st /\ G.redo_stack _ _ (fst gr) = rev r' /\
-      last (redo_stack st) dA = b /\
-      hist_redo st = do _x, s <- inv_action (upd_hist st (undo_stack st) (rev r')) b; Ok true s
-  end.
-Proof.
-  intros st dA. unfold hist_redo, G.redo, to_hist. cbn [G.undo_stack G.redo_stack G.cur].
-  destruct (rev (redo_stack st)) as [|b r'] eqn:E.
-  - apply (f_equal (@rev action)) in E. rewrite rev_involutive in E. cbn in E. rewrite E. cbn. auto.
-  - destruct (rev_cons_last _ _ _ dA E) as [E1 E2].
-    assert (Hn : redo_stack st <> []) by (intros H; rewrite H in E; discriminate).
-    destruct (Z.eqb_spec (Z.of_nat (length (redo_stack st))) 0) as [H|_].
-    + destruct (redo_stack st); [congruence|cbn in H; lia].
-    + destruct (inv_total st (last (redo_stack st) dA)) as [s2 x]. cbn. rewrite E2. auto.
-Qed.
-
-(* ================================================================== *)
-(* 3. annotators/_track_annotator.py                                   *)
-(* ================================================================== *)
-Lemma zmax_gtb a b : (if b >? a then b else a) = Z.max a b.
-Proof. destruct (Z.gtb_spec b a); lia. Qed.
-
-(* projections of a state that was just built *)
-Ltac stnorm := cbn [set_trk_book set_lin_book set_max_trk set_max_lin upd_bk upd_nctr bk g ft seg undo_stack redo_stack rlog nctr
-                    trk_book lin_book max_trk max_lin].
-
-(* _add_to_tracklet_bookkeeping = book_add_extend + the running maximum *)
-Theorem gen_add_to_tracklet_bookkeeping_eq : forall st ns id,
-  gen_add_to_tracklet_bookkeeping st ns id =
-  Ok tt (upd_bk st {| trk_book := book_add_extend (trk_book (bk st)) ns id; lin_book := lin_book (bk st);
-                      max_trk := Z.max (max_trk (bk st)) id; max_lin := max_lin (bk st) |}).
-Proof.
-  intros st ns id. unfold gen_add_to_tracklet_bookkeeping, book_add_extend, getd, haskey, py_getitem.
-  destruct (lookup id (trk_book (bk st))) as [l|] eqn:E; cbn [negb bind]; stnorm.
-  - rewrite E. cbn [bind]. stnorm. rewrite <- zmax_gtb.
-    destruct (id >? max_trk (bk st)); reflexivity.
-  - rewrite lookup_set_eq. cbn [bind]. stnorm.
-    rewrite set_set_eq, <- zmax_gtb.
-    destruct (id >? max_trk (bk st)); reflexivity.
-Qed.
-
-(* _remove_from_tracklet_bookkeeping = book_remove *)
-Definition rm_fold (ns l : list Z) : list Z := fold_left (fun acc n => if memz n acc then remove1 n acc else acc) ns l.
-
-Theorem gen_remove_from_tracklet_bookkeeping_eq : forall st ns id,
-  gen_remove_from_tracklet_bookkeeping st ns id = Ok tt (set_trk_book st (book_remove (trk_book (bk st)) ns id)).
-Proof.
-  intros st ns id. unfold gen_remove_from_tracklet_bookkeeping, book_remove, haskey.
-  destruct (lookup id (trk_book (bk st))) as [l|] eqn:E; cbn [negb bind]; [|now rewrite set_trk_book_same].
-  match goal with |- context [py_for _ _ _ ?f] => set (F := f) end.
-  assert (L : forall ns l s, lookup id (trk_book (bk s)) = Some l ->
-              py_for ns tt s F = Ok tt (set_trk_book s (set id (rm_fold ns l) (trk_book (bk s))))).
-  { clear. induction ns as [|n r IH]; intros l s El; cbn [py_for rm_fold fold_left].
-    - now rewrite (set_same _ _ _ El), set_trk_book_same.
-    - unfold F at 1. unfold py_getitem, py_list_remove. rewrite El. cbn [bind].
-      destruct (memz n l) eqn:Em; cbn [bind].
-      + rewrite El. cbn [bind]. rewrite Em. cbn [bind].
-        rewrite (IH (remove1 n l)); stnorm; [|apply lookup_set_eq]. now rewrite set_set_eq.
-      + now rewrite (IH l s El). }
-  rewrite (L ns l st E). cbn [bind]. stnorm. unfold py_getitem, py_delitem, haskey. rewrite lookup_set_eq. cbn [bind].
-  fold (rm_fold ns l). destruct (rm_fold ns l) as [|y q] eqn:Er; stnorm.
-  - rewrite lookup_set_eq. cbn [bind]. stnorm. now rewrite del_set_eq.
-  - reflexivity.
-Qed.
-
-Theorem gen_remove_from_lineage_bookkeeping_eq : forall st ns id,
-  gen_remove_from_lineage_bookkeeping st ns id = Ok tt (set_lin_book st (book_remove (lin_book (bk st)) ns id)).
-Proof.
-  intros st ns id. unfold gen_remove_from_lineage_bookkeeping, book_remove, haskey.
-  destruct (lookup id (lin_book (bk st))) as [l|] eqn:E; cbn [negb bind]; [|now rewrite set_lin_book_same].
-  match goal with |- context [py_for _ _ _ ?f] => set (F := f) end.
-  assert (L : forall ns l s, lookup id (lin_book (bk s)) = Some l ->
-              py_for ns tt s F = Ok tt (set_lin_book s (set id (rm_fold ns l) (lin_book (bk s))))).
-  { clear. induction ns as [|n r IH]; intros l s El; cbn [py_for rm_fold fold_left].
-    - now rewrite (set_same _ _ _ El), set_lin_book_same.
-    - unfold F at 1. unfold py_getitem, py_list_remove. rewrite El. cbn [bind].
-      destruct (memz n l) eqn:Em; cbn [bind].
-      + rewrite El. cbn [bind]. rewrite Em. cbn [bind].
-        rewrite (IH (remove1 n l)); stnorm; [|apply lookup_set_eq]. now rewrite set_set_eq.
-      + now rewrite (IH l s El). }
-  rewrite (L ns l st E). cbn [bind]. stnorm. unfold py_getitem, py_delitem, haskey. rewrite lookup_set_eq. cbn [bind].
-  fold (rm_fold ns l). destruct (rm_fold ns l) as [|y q] eqn:Er; stnorm.
-  - rewrite lookup_set_eq. cbn [bind]. stnorm. now rewrite del_set_eq.
-  - reflexivity.
-Qed.
-
-(* _add_to_lineage_bookkeeping = book_add_dedup + the running maximum *)
-Definition dd_fold (ns l : list Z) : list Z := fold_left (fun acc n => if memz n acc then acc else acc ++ [n]) ns l.
-
-Theorem gen_add_to_lineage_bookkeeping_eq : forall st ns id,
-  gen_add_to_lineage_bookkeeping st ns id =
-  Ok tt (upd_bk st {| trk_book := trk_book (bk st); lin_book := book_add_dedup (lin_book (bk st)) ns id;
-                      max_trk := max_trk (bk st); max_lin := Z.max (max_lin (bk st)) id |}).
-Proof.
-  intros st ns id. unfold gen_add_to_lineage_bookkeeping, book_add_dedup.
-  match goal with |- context [py_for _ _ _ ?f] => set (F := f) end.
-  assert (L : forall ns l s, lookup id (lin_book (bk s)) = Some l ->
-              py_for ns tt s F = Ok tt (set_lin_book s (set id (dd_fold ns l) (lin_book (bk s))))).
-  { clear. induction ns as [|n r IH]; intros l s El; cbn [py_for dd_fold fold_left].
-    - now rewrite (set_same _ _ _ El), set_lin_book_same.
-    - unfold F at 1. unfold py_getitem. rewrite El. cbn [bind].
-      destruct (memz n l) eqn:Em; cbn [bind negb].
-      + now rewrite (IH l s El).
-      + rewrite El. cbn [bind].
-        rewrite (IH (l ++ [n])); stnorm; [|apply lookup_set_eq]. now rewrite set_set_eq. }
-  unfold getd, haskey.
-  destruct (lookup id (lin_book (bk st))) as [l|] eqn:E; cbn [negb bind].
-  - rewrite (L ns l st E). cbn [bind]. stnorm. fold (dd_fold ns l). rewrite <- zmax_gtb.
-    destruct (id >? max_lin (bk st)); reflexivity.
-  - rewrite (L ns [] _); stnorm; [|apply lookup_set_eq]. cbn [bind]. stnorm. fold (dd_fold ns []).
-    rewrite set_set_eq, <- zmax_gtb. destruct (id >? max_lin (bk st)); reflexivity.
-Qed.
-
-(* _update_*_bookkeeping: remove, then add *)
-Theorem gen_update_tracklet_bookkeeping_eq : forall st ns old new,
-  gen_update_tracklet_bookkeeping st ns old new =
-  Ok tt (upd_bk st {| trk_book := book_add_extend (book_remove (trk_book (bk st)) ns old) ns new; lin_book := lin_book (bk st);
-                      max_trk := Z.max (max_trk (bk st)) new; max_lin := max_lin (bk st) |}).
-Proof.
-  intros. unfold gen_update_tracklet_bookkeeping.
-  rewrite gen_remove_from_tracklet_bookkeeping_eq. cbn [bind]. rewrite gen_add_to_tracklet_bookkeeping_eq. reflexivity.
-Qed.
-Theorem gen_update_lineage_bookkeeping_eq : forall st ns old new,
-  gen_update_lineage_bookkeeping st ns old new =
-  Ok tt (upd_bk st {| trk_book := trk_book (bk st);
-                      lin_book := book_add_dedup (match old with Some o => book_remove (lin_book (bk st)) ns o | None => lin_book (bk st) end) ns new;
-                      max_trk := max_trk (bk st); max_lin := Z.max (max_lin (bk st)) new |}).
-Proof.
-  intros. unfold gen_update_lineage_bookkeeping. destruct old as [o|]; cbn [bind].
-  - rewrite gen_remove_from_lineage_bookkeeping_eq. cbn [bind]. rewrite gen_add_to_lineage_bookkeeping_eq. reflexivity.
-  - rewrite gen_add_to_lineage_bookkeeping_eq. reflexivity.
-Qed.
-
-Lemma bind_ext_l : forall A B (r : res A) (f1 f2 : A -> state -> res B),
-  (forall a s, f1 a s = f2 a s) -> bind r f1 = bind r f2.
-Proof. intros A B r f1 f2 H. destruct r; cbn [bind]; auto. Qed.
-
-(* _handle_add_node: the tail of do_add_node *)
-Definition book_handle_add_node (st : state) (n : Z) : res unit :=
-  match zattr st n KTrack with
-  | None => Err EKey st
-  | Some t =>
-    let b := bk st in
-    let tb := book_add_extend (trk_book b) [n] t in
-    let mt := Z.max (max_trk b) t in
-    let '(lb, ml) := if lin_act (ft st)
-                     then match zattr st n KLin with
-                          | Some l => (book_add_dedup (lin_book b) [n] l, Z.max (max_lin b) l)
-                          | None => (lin_book b, max_lin b) end
-                     else (lin_book b, max_lin b) in
-    Ok tt (upd_bk st {| trk_book := tb; lin_book := lb; max_trk := mt; max_lin := ml |})
-  end.
-Theorem gen_handle_add_node_eq : forall st n a px, gen_handle_add_node st n a px = book_handle_add_node st n.
-Proof.
-  intros st n a px. unfold gen_handle_add_node, book_handle_add_node. rewrite gen_get_track_id_eq. unfold py_get_track_id.
-  destruct (zattr st n KTrack) as [t|] eqn:Et; cbn [bind]; [|reflexivity].
-  rewrite gen_add_to_tracklet_bookkeeping_eq. cbn [bind]. stnorm.
-  destruct (lin_act (ft st)); [|reflexivity].
-  unfold py_node_attr_get_z. change (has_node (upd_bk st ?b) n) with (has_node st n). rewrite (zattr_has_node _ _ _ _ Et). cbn [bind].
-  change (zattr (upd_bk st ?b) n KLin) with (zattr st n KLin).
-  destruct (zattr st n KLin) as [l|]; [|reflexivity].
-  rewrite gen_add_to_lineage_bookkeeping_eq. reflexivity.
-Qed.
-(* do_add_node is: validation, pixels, graph, regionprops -- then exactly this slice *)
-Lemma do_add_node_slice : forall st n a px,
-  do_add_node st n a px =
-  if negb (haskey KTime a) then Err EValue st else
-  if negb (haskey KTrack a) then Err EValue st else
-  if (match px with None => negb (all_in (pos_keys (ft st)) a) | Some _ => false end) then Err EValue st else
-  do _u, st <- (match px with Some p => set_pixels st p n | None => Ok tt st end);
-  let nd := nodes (g st) in
-  let st := if haskey n nd then st
-            else upd_g st {| nodes := nd ++ [(n, [])]; succs := set n (getd n (succs (g st)) []) (succs (g st)) |} in
-  let st := fold_left (fun s kv => set_node_attr s n (fst kv) (snd kv)) a st in
-  let st := rp_update st n in
-  if negb (trk_act (ft st)) then Ok (BAddNode n a px) st else
-  do _u, st <- book_handle_add_node st n; Ok (BAddNode n a px) st.
-Proof.
-  intros. unfold do_add_node, book_handle_add_node.
-  repeat match goal with |- (if ?c then _ else _) = (if ?c then _ else _) => destruct c; [reflexivity|] end.
-  apply bind_ext_l. intros u s. cbv zeta.
-  match goal with |- (if ?c then _ else _) = _ => destruct c; [reflexivity|] end.
-  match goal with |- context [zattr ?s n KTrack] => destruct (zattr s n KTrack); [|reflexivity] end.
-  match goal with |- context [lin_act ?f] => destruct (lin_act f) end; [|reflexivity].
-  match goal with |- context [zattr ?s n KLin] => destruct (zattr s n KLin); reflexivity end.
-Qed.
-
-(* _handle_delete_node: the tail of do_del_node *)
-Definition book_handle_delete_node (st : state) (n : Z) (saved : attrs) : res unit :=
-  let b := bk st in
-  let tb := match lookup KTrack saved with Some (VZ t) => book_remove (trk_book b) [n] t | _ => trk_book b end in
-  let lb := if lin_act (ft st)
-            then match lookup KLin saved with Some (VZ l) => book_remove (lin_book b) [n] l | _ => lin_book b end
-            else lin_book b in
-  Ok tt (upd_bk st {| trk_book := tb; lin_book := lb; max_trk := max_trk b; max_lin := max_lin b |}).
-Theorem gen_handle_delete_node_eq : forall st n saved px, gen_handle_delete_node st n saved px = book_handle_delete_node st n saved.
-Proof.
-  intros st n saved px. unfold gen_handle_delete_node, book_handle_delete_node, py_attrs_get_z. cbv zeta.
-  assert (E0 : forall s, Ok tt s = Ok tt (upd_bk s {| trk_book := trk_book (bk s); lin_book := lin_book (bk s); max_trk := max_trk (bk s); max_lin := max_lin (bk s) |}))
-    by (intros s; now rewrite books_eta, upd_bk_same).
-  destruct (lookup KTrack saved) as [[t| | | |]|]; cbn [bind];
-    try rewrite gen_remove_from_tracklet_bookkeeping_eq; cbn [bind]; stnorm;
-    (destruct (lin_act (ft st)); [destruct (lookup KLin saved) as [[l| | | |]|]|]);
-    try rewrite gen_remove_from_lineage_bookkeeping_eq; stnorm; try reflexivity; apply E0.
-Qed.
-Lemma do_del_node_slice : forall st n pxo,
-  do_del_node st n pxo =
-  match lookup n (nodes (g st)) with
-  | None => Err EKey st
-  | Some d =>
-    let saved := saved_attrs (reg_node (ft st)) d in
-    let px := match pxo with Some p => Some p | None => get_pixels st n end in
-    do _u, st <- (match px with Some p => set_pixels st p 0 | None => Ok tt st end);
-    let sc := map (fun ua => (fst ua, del n (snd ua))) (del n (succs (g st))) in
-    let st := upd_g st {| nodes := del n (nodes (g st)); succs := sc |} in
-    if negb (trk_act (ft st)) then Ok (BDelNode n saved px) st else
-    do _u, st <- book_handle_delete_node st n saved; Ok (BDelNode n saved px) st
-  end.
-Proof.
-  intros. unfold do_del_node, book_handle_delete_node. destruct (lookup n (nodes (g st))); [|reflexivity].
-  cbv zeta. apply bind_ext_l. intros u s. match goal with |- (if ?c then _ else _) = _ => destruct c; reflexivity end.
-Qed.
-
-(* ---------- _handle_update_track_ids: the relabel walk ---------- *)
-Definition has_trk (st : state) (n : Z) : Prop := exists t, zattr st n KTrack = Some t.
-(* every node that has a parent carries a track id *)
-Definition succ_trk (st : state) : Prop := forall u v, In v (successors st u) -> has_trk st v.
-Definition walk_dom (st : state) (start : Z) : Prop := has_trk st start /\ succ_trk st.
-
-Lemma W_dict_walk_dom st start : W_dict st -> has_trk st start -> walk_dom st start.
-Proof.
-  intros W H. split; [exact H|]. intros u v Hv. apply edge_successors in Hv. destruct (wd_edge_nodes st W u v Hv) as [_ Hn].
-  destruct (wd_track st W v Hn) as [k Hk]. exists k. now apply zattr_attr.
-Qed.
-
-(* what one visit keeps: track ids stay, the successor lists are the same *)
-Definition keeps (s s' : state) : Prop := (forall m, has_trk s m -> has_trk s' m) /\ (forall u, successors s' u = successors s u).
-Lemma visit_keeps oldT newT newL s flag tn ln next n :
-  keeps s (acc_state (visit oldT newT newL (s, flag, tn, ln, next) n)) /\
-  acc_next (visit oldT newT newL (s, flag, tn, ln, next) n) = next ++ successors s n.
-Proof.
-  destruct (visit_struct oldT newT newL s flag tn ln next n) as [H1 H2].
-  pose proof (visit_vz oldT newT newL s flag tn ln next n) as H3.
-  split; [split|exact H2].
-  - intros m [t Ht]. apply zattr_attr in Ht. destruct (H3 m KTrack (or_introl eq_refl) (ex_intro _ t Ht)) as [z Hz].
-    exists z. now apply zattr_attr.
-  - intros u. apply (same_struct_successors _ _ _ H1).
-Qed.
-Lemma keeps_succ_trk s s' : keeps s s' -> succ_trk s -> succ_trk s'.
-Proof. intros [K1 K2] H u v Hv. rewrite K2 in Hv. apply K1. eapply H; eauto. Qed.
-
-Definition book_handle_update_track_ids_at (fuel : nat) (st : state) (start oldT newT : Z) (oldL newL : option Z) : res unit :=
-  let newL' := if lin_act (ft st) then newL else None in
-  match walk fuel oldT newT newL' st [start] true [] [] with
-  | None => Err EFuel st
-  | Some (st1, tn, ln) =>
-    let b := bk st1 in
-    let tb := book_add_extend (book_remove (trk_book b) tn oldT) tn newT in
-    let mt := Z.max (max_trk b) newT in
-    let '(lb, ml) := match newL' with
-                     | Some l => (book_add_dedup (match oldL with Some o => book_remove (lin_book b) ln o | None => lin_book b end) ln l,
-                                  Z.max (max_lin b) l)
-                     | None => (lin_book b, max_lin b) end in
-    Ok tt (upd_bk st1 {| trk_book := tb; lin_book := lb; max_trk := mt; max_lin := ml |})
-  end.
-(* the hand model's fuel *)
-Definition book_handle_update_track_ids (st : state) (start oldT newT : Z) (oldL newL : option Z) : res unit :=
-  book_handle_update_track_ids_at (S (length (nodes (g st)))) st start oldT newT oldL newL.
-
-Lemma has_trk_sna s n k z m : has_trk s m -> has_trk (set_node_attr s n k (VZ z)) m.
-Proof.
-  intros [t Ht]. apply zattr_attr in Ht.
-  destruct (vz_pres_sna s n k z m KTrack (or_introl eq_refl) (ex_intro _ t Ht)) as [y Hy]. exists y. now apply zattr_attr.
-Qed.
-
-Theorem gen_handle_update_track_ids_at_eq : forall fuel st start oldT newT oldL newL, walk_dom st start ->
-  gen_handle_update_track_ids fuel st start oldT newT oldL newL =
-  book_handle_update_track_ids_at fuel st start oldT newT oldL newL.
-Proof.
-  intros fuel0 st start oldT newT oldL newL [Hstart Hsucc].
-  unfold gen_handle_update_track_ids, book_handle_update_track_ids_at. cbv zeta.
-  (* the lineage update is on (NL = Some l) or off (NL = None): the same script for the four cases *)
-  destruct (lin_act (ft st)) eqn:Ela; destruct newL as [l|]; cbn [py_is_some andb].
-  all: match goal with |- context [walk _ _ _ ?nl _ _ _ _ _] => set (NL := nl) end.
-  all: match goal with |- context [py_while _ _ _ ?c ?b] => set (C := c); set (B := b) end.
-  all: assert (LV : forall curr s ln tn flag, succ_trk s -> (forall n, In n curr -> has_trk s n) ->
-            let '(s', flag', tn', ln', next') := fold_left (visit oldT newT NL) curr (s, flag, tn, ln, []) in
-            B (ln, tn, flag, curr) s = Ok (ln', tn', flag', next') s' /\ succ_trk s' /\ (forall n, In n next' -> has_trk s' n))
-    by (intros curr0 s0 ln0 tn0 flag0 Hs0 Hc0; unfold B; cbv beta iota;
-        match goal with |- context [py_for _ _ _ ?f] => set (F := f) end;
-        assert (LF : forall curr s ln tn flag next, succ_trk s -> (forall n, In n curr -> has_trk s n) -> (forall n, In n next -> has_trk s n) ->
-                  let '(s', flag', tn', ln', next') := fold_left (visit oldT newT NL) curr (s, flag, tn, ln, next) in
-                  py_for curr (ln, tn, flag, next) s F = Ok (ln', tn', flag', next') s' /\ succ_trk s' /\ (forall n, In n next' -> has_trk s' n))
-          by (induction curr as [|n r IH]; intros s ln tn flag next Hs Hc Hn; cbn [fold_left py_for]; [auto|];
-              destruct (visit_keeps oldT newT NL s flag tn ln next n) as [[K1 K2] K3];
-              assert (E : F n (ln, tn, flag, next) s =
-                          (let '(s1, f1, tn1, ln1, nx1) := visit oldT newT NL (s, flag, tn, ln, next) n in Ok (ln1, tn1, f1, nx1) s1))
-                by (destruct (Hc n (or_introl eq_refl)) as [t0 Ht0]; pose proof (zattr_has_node _ _ _ _ Ht0) as Hnode;
-                    unfold F, visit, NL, py_set_node_attr; cbn [val_of_optz]; rewrite ?Hnode; cbn [bind];
-                    destruct flag; [|reflexivity];
-                    rewrite gen_get_track_id_eq; unfold py_get_track_id;
-                    match goal with |- context [zattr ?sa n KTrack] =>
-                      assert (Ha : has_trk sa n) by (first [exact (ex_intro _ t0 Ht0) | apply has_trk_sna; exact (ex_intro _ t0 Ht0)]);
-                      destruct Ha as [ta Hta]; rewrite Hta; cbn [bind];
-                      destruct (ta =? oldT); [|reflexivity];
-                      rewrite (zattr_has_node _ _ _ _ Hta); reflexivity
-                    end);
-              rewrite E; destruct (visit oldT newT NL (s, flag, tn, ln, next) n) as [[[[s1 f1] tn1] ln1] nx1]; cbn [acc_state acc_next] in *; cbn [bind];
-              apply IH;
-              [ apply (keeps_succ_trk s s1 (conj K1 K2) Hs)
-              | intros m Hm; apply K1, Hc; now right
-              | intros m Hm; subst nx1; apply in_app_or in Hm; destruct Hm as [Hm|Hm]; [apply K1, Hn, Hm|apply K1; eapply Hs; eauto] ]);
-        specialize (LF curr0 s0 ln0 tn0 flag0 [] Hs0 Hc0 (fun n (H : In n []) => match H with end));
-        destruct (fold_left (visit oldT newT NL) curr0 (s0, flag0, tn0, ln0, [])) as [[[[s1 f1] tn1] ln1] nx1];
-        destruct LF as (LF1 & LF2 & LF3); rewrite LF1; cbn [bind]; auto).
-  all: assert (LW : forall fuel s curr flag tn ln, succ_trk s -> (forall n, In n curr -> has_trk s n) ->
-            forall (K : list Z * list Z * bool * list Z -> state -> res unit),
-            (forall ln tn f1 f2 c1 c2 s, K (ln, tn, f1, c1) s = K (ln, tn, f2, c2) s) ->
-            bind (py_while_from st fuel (ln, tn, flag, curr) s C B) K =
-            match walk fuel oldT newT NL s curr flag tn ln with
-            | Some (s', tn', ln') => K (ln', tn', true, []) s'
-            | None => Err EFuel st
-            end)
-    by (induction fuel as [|f IH]; intros s curr flag tn ln Hs Hc K HK;
-        (destruct curr as [|c0 cs]; cbn [py_while_from walk]; unfold C at 1; cbn [py_truthy]; [cbn [bind]; apply HK|]);
-        [ reflexivity
-        | pose proof (LV (c0 :: cs) s ln tn flag Hs Hc) as L;
-          destruct (fold_left (visit oldT newT NL) (c0 :: cs) (s, flag, tn, ln, [])) as [[[[s1 f1] tn1] ln1] nx1];
-          destruct L as (L1 & L2 & L3); rewrite L1; cbn [bind]; apply IH; assumption ]).
-  all: unfold py_while; rewrite LW; [|exact Hsucc|intros n [<-|[]]; exact Hstart|intros; reflexivity].
-  all: destruct (walk fuel0 oldT newT NL st [start] true [] []) as [[[s1 tn1] ln1]|]; [|reflexivity].
-  all: cbv beta iota; rewrite gen_update_tracklet_bookkeeping_eq; cbn [bind]; rewrite ?gen_update_lineage_bookkeeping_eq; reflexivity.
-Qed.
-Theorem gen_handle_update_track_ids_eq : forall st start oldT newT oldL newL, walk_dom st start ->
-  gen_handle_update_track_ids (S (length (nodes (g st)))) st start oldT newT oldL newL =
-  book_handle_update_track_ids st start oldT newT oldL newL.
-Proof. intros. now apply gen_handle_update_track_ids_at_eq. Qed.
-
-(* "for fuel large enough": on a well-formed forest the walk ends within the hand model's fuel
-   (EditWalk.levels_empty), and more fuel changes nothing *)
-Lemma walk_mono oldT newT newL : forall f st curr flag tn ln r,
-  walk f oldT newT newL st curr flag tn ln = Some r -> forall f', (f <= f')%nat -> walk f' oldT newT newL st curr flag tn ln = Some r.
-Proof.
-  induction f as [|k IH]; intros st curr flag tn ln r H f' Hle; destruct curr as [|c cs]; cbn [walk] in H; try discriminate.
-  - destruct f'; exact H.
-  - destruct f'; exact H.
-  - destruct f' as [|k']; [lia|]. cbn [walk].
-    destruct (fold_left (visit oldT newT newL) (c :: cs) (st, flag, tn, ln, [])) as [[[[s1 f1] tn1] ln1] nx1].
-    apply (IH _ _ _ _ _ _ H). lia.
-Qed.
-Definition fuel_ok (st : state) (fuel : nat) : Prop :=
-  fuel = S (length (nodes (g st))) \/ (W_dict st /\ W_forest st /\ (S (length (nodes (g st))) <= fuel)%nat).
-Theorem gen_handle_update_track_ids_fuel : forall fuel st start oldT newT oldL newL, walk_dom st start -> fuel_ok st fuel ->
-  gen_handle_update_track_ids fuel st start oldT newT oldL newL = book_handle_update_track_ids st start oldT newT oldL newL.
-Proof.
-  intros fuel st start oldT newT oldL newL Hw [->|(Wd & Wf & Hle)]; [now apply gen_handle_update_track_ids_eq|].
-  rewrite gen_handle_update_track_ids_at_eq by exact Hw.
-  unfold book_handle_update_track_ids, book_handle_update_track_ids_at. cbv zeta.
-  destruct (walk (S (length (nodes (g st)))) oldT newT (if lin_act (ft st) then newL else None) st [start] true [] []) as [r|] eqn:W.
-  - now rewrite (walk_mono _ _ _ _ _ _ _ _ _ _ W fuel Hle).
-  - exfalso. apply walk_none in W. apply W. now apply levels_empty.
-Qed.
-
-(* do_upd_track is: read the old ids -- then exactly this slice *)
-Lemma do_upd_track_slice : forall st start newT newL,
-  do_upd_track st start newT newL =
-  if negb (has_node st start) then Err EKey st else
-  match zattr st start KTrack with
-  | None => Err EKey st
-  | Some oldT =>
-    let oldL := zattr st start KLin in
-    if negb (trk_act (ft st)) then Ok (BUpdTrack start oldT newT oldL newL) st else
-    do _u, s <- book_handle_update_track_ids st start oldT newT oldL newL; Ok (BUpdTrack start oldT newT oldL newL) s
-  end.
-Proof.
-  intros. unfold do_upd_track, book_handle_update_track_ids, book_handle_update_track_ids_at.
-  destruct (negb (has_node st start)); [reflexivity|]. destruct (zattr st start KTrack) as [oldT|]; [|reflexivity].
-  cbv zeta. destruct (negb (trk_act (ft st))); [reflexivity|].
-  destruct (walk _ _ _ _ _ _ _ _ _) as [[[s1 tn] ln]|]; [|reflexivity].
-  destruct (lin_act (ft st)); [destruct newL|]; reflexivity.
-Qed.
-
-(* the hypothesis is needed: node 2, a child of node 1, has no track id.  Relabelling from node 1, the Python
-   raises KeyError at get_track_id(2) -- after node 1 was relabelled -- where the hand model reads "no track id"
-   as "another tracklet" and finishes. *)
-Example walk_dom_needed :
-  let nd := [(1, [(KTime, VZ 0); (KTrack, VZ 5)]); (2, [(KTime, VZ 1)])] in
-  let st0 := {| g := {| nodes := nd; succs := [(1, [(2, [])]); (2, [])] |}; seg := None;
-                ft := {| reg_node := []; reg_edge := []; pos_keys := []; rp_all := []; rp_act := [];
-                         iou_avail := false; iou_act := false; trk_act := true; lin_act := true |};
-                bk := {| trk_book := [(5, [1])]; lin_book := []; max_trk := 5; max_lin := 0 |};
-                undo_stack := []; redo_stack := []; rlog := []; nctr := 0 |} in
-  (exists s, gen_handle_update_track_ids 3 st0 1 5 6 None None = Err EKey s /\ zattr s 1 KTrack = Some 6) /\
-  (exists s, book_handle_update_track_ids st0 1 5 6 None None = Ok tt s).
-Proof. split; eexists; vm_compute; [split|]; reflexivity. Qed.
-
-(* TrackAnnotator.update: nothing when the tracklet feature is off, else the handler of the action's class *)
-Definition book_track_annotator_update (st : state) (b : basic) : res unit :=
-  if negb (trk_act (ft st)) then Ok tt st else
-  match b with
-  | BUpdTrack start oldT newT oldL newL => book_handle_update_track_ids st start oldT newT oldL newL
-  | BAddNode n _ _ => book_handle_add_node st n
-  | BDelNode n saved _ => book_handle_delete_node st n saved
-  | _ => Ok tt st
-  end.
-Lemma bind_ret : forall A (r : res A), bind r (fun a s => Ok a s) = r.
-Proof. destruct r; reflexivity. Qed.
-Lemma bind_tt : forall (r : res unit), bind r (fun _ s => Ok tt s) = r.
-Proof. destruct r as [[] s|e s]; reflexivity. Qed.
-Theorem gen_track_annotator_update_eq : forall fuel st b,
-  (forall start oldT newT oldL newL, b = BUpdTrack start oldT newT oldL newL -> walk_dom st start /\ fuel_ok st fuel) ->
-  gen_track_annotator_update fuel st b = book_track_annotator_update st b.
-Proof.
-  intros fuel st b H. unfold gen_track_annotator_update, book_track_annotator_update.
-  destruct (negb (trk_act (ft st))); [reflexivity|].
-  destruct b; try reflexivity; rewrite ?gen_handle_add_node_eq, ?gen_handle_delete_node_eq; try apply bind_tt.
-  destruct (H _ _ _ _ _ eq_refl) as [Hw Hf]. rewrite gen_handle_update_track_ids_fuel by assumption. apply bind_tt.
-Qed.
-(* the actions TrackAnnotator.update ignores *)
-Lemma gen_track_annotator_update_other : forall fuel st b,
-  match b with BUpdTrack _ _ _ _ _ | BAddNode _ _ _ | BDelNode _ _ _ => False | _ => True end ->
-  gen_track_annotator_update fuel st b = Ok tt st.
-Proof.
-  intros fuel st b H. unfold gen_track_annotator_update. destruct (negb (trk_act (ft st))); [reflexivity|].
-  destruct b; try reflexivity; contradiction.
-Qed.
-
-(* ================================================================== *)
-(* 4. actions/*.py: constructor (= apply) and inverse of the basic actions *)
-(* ================================================================== *)
-(* UpdateTrackIDs(tracks, start, tracklet_id, lineage_id) = do_upd_track *)
-Theorem gen_UpdateTrackIDs_init_fuel : forall fuel st start newT newL, succ_trk st -> fuel_ok st fuel ->
-  gen_UpdateTrackIDs_init fuel st start newT newL = do_upd_track st start newT newL.
-Proof.
-  intros fuel st start newT newL Hs Hfuel. rewrite do_upd_track_slice. unfold gen_UpdateTrackIDs_init.
-  rewrite gen_get_track_id_eq. unfold py_get_track_id.
-  destruct (zattr st start KTrack) as [oldT|] eqn:Et; cbn [bind].
-  - rewrite (zattr_has_node _ _ _ _ Et). cbn [negb]. rewrite gen_get_lineage_id_eq by (eapply zattr_has_node; eauto). cbn [bind].
-    unfold gen_UpdateTrackIDs_apply, py_regionprops_update, py_edge_update. cbn [bind].
-    rewrite gen_track_annotator_update_eq.
-    + unfold book_track_annotator_update. destruct (negb (trk_act (ft st))); cbn [bind]; [reflexivity|].
-      destruct (book_handle_update_track_ids st start oldT newT (zattr st start KLin) newL) as [[] s|e s]; reflexivity.
-    + intros ? ? ? ? ? E. inversion E; subst. split; [split; [eexists; eassumption|exact Hs]|exact Hfuel].
-  - destruct (negb (has_node st start)); reflexivity.
-Qed.
-Theorem gen_UpdateTrackIDs_init_eq : forall st start newT newL, succ_trk st ->
-  gen_UpdateTrackIDs_init (S (length (nodes (g st)))) st start newT newL = do_upd_track st start newT newL.
-Proof. intros. apply gen_UpdateTrackIDs_init_fuel; [assumption|now left]. Qed.
-Lemma W_dict_succ_trk st : W_dict st -> succ_trk st.
-Proof.
-  intros W u v Hv. apply edge_successors in Hv. destruct (wd_edge_nodes st W u v Hv) as [_ Hn].
-  destruct (wd_track st W v Hn) as [k Hk]. exists k. now apply zattr_attr.
-Qed.
-(* with the invariants every property theorem about do_upd_track carries: any fuel from the model's on *)
-Corollary gen_UpdateTrackIDs_init_WF : forall fuel st start newT newL, W_dict st -> W_forest st ->
-  (S (length (nodes (g st))) <= fuel)%nat ->
-  gen_UpdateTrackIDs_init fuel st start newT newL = do_upd_track st start newT newL.
-Proof. intros. apply gen_UpdateTrackIDs_init_fuel; [now apply W_dict_succ_trk|right; auto]. Qed.
-(* UpdateTrackIDs.inverse(): construct the action with the old ids = inv_basic *)
-Theorem gen_UpdateTrackIDs_inverse_eq : forall fuel st start oldT newT oldL newL, succ_trk st -> fuel_ok st fuel ->
-  gen_UpdateTrackIDs_inverse fuel st start oldT newT oldL newL = inv_basic st (BUpdTrack start oldT newT oldL newL).
-Proof.
-  intros. unfold gen_UpdateTrackIDs_inverse. rewrite bind_ret. cbn [inv_basic]. now apply gen_UpdateTrackIDs_init_fuel.
-Qed.
-
-(* ---------- frame facts of the pieces the actions are made of ---------- *)
-Lemma has_node_sna st n k v m : has_node (set_node_attr st n k v) m = has_node st m.
-Proof.
-  unfold set_node_attr. destruct (lookup n (nodes (g st))) as [d|] eqn:E; [|reflexivity].
-  unfold has_node, haskey. cbn. destruct (Z.eq_dec m n) as [->|Hn]; [now rewrite lookup_set_eq, E|now rewrite lookup_set_neq].
-Qed.
-Lemma has_node_dna st n k m : has_node (del_node_attr st n k) m = has_node st m.
-Proof.
-  unfold del_node_attr. destruct (lookup n (nodes (g st))) as [d|] eqn:E; [|reflexivity].
-  unfold has_node, haskey. cbn. destruct (Z.eq_dec m n) as [->|Hn]; [now rewrite lookup_set_eq, E|now rewrite lookup_set_neq].
-Qed.
-Lemma fold_sna_frame n v : forall (l : list Z) st,
-  let s' := fold_left (fun s k => set_node_attr s n k v) l st in
-  seg s' = seg st /\ ft s' = ft st /\ forall m, has_node s' m = has_node st m.
-Proof.
-  induction l as [|k r IH]; intros st; cbn [fold_left]; [auto|].
-  destruct (IH (set_node_attr st n k v)) as (A & B & C). destruct (sna_rest st n k v) as (R1 & R2 & _).
-  cbv zeta. rewrite A, B. repeat split; auto. intros m. now rewrite C, has_node_sna.
-Qed.
-Lemma rp_update_frame st n :
-  seg (rp_update st n) = seg st /\ ft (rp_update st n) = ft st /\ forall m, has_node (rp_update st n) m = has_node st m.
-Proof. unfold rp_update. destruct (seg st) as [sg|] eqn:Es; [|auto]. rewrite <- Es. apply fold_sna_frame. Qed.
-Lemma rp_update_inactive st n : seg st = None \/ rp_act (ft st) = [] -> rp_update st n = st.
-Proof. unfold rp_update. intros [H|H]; rewrite H; [reflexivity|]. destruct (seg st); reflexivity. Qed.
-Lemma fold_set_attrs_frame n : forall (a : attrs) st,
-  let s' := fold_left (fun s kv => set_node_attr s n (fst kv) (snd kv)) a st in
-  seg s' = seg st /\ ft s' = ft st /\ forall m, has_node s' m = has_node st m.
-Proof.
-  induction a as [|[k v] r IH]; intros st; cbn [fold_left fst snd]; [auto|].
-  destruct (IH (set_node_attr st n k v)) as (A & B & C). destruct (sna_rest st n k v) as (R1 & R2 & _).
-  cbv zeta. rewrite A, B. repeat split; auto. intros m. now rewrite C, has_node_sna.
-Qed.
-
-(* ---------- UpdateNodeSeg(tracks, node, pixels, added) = do_upd_seg ---------- *)
-Theorem gen_UpdateNodeSeg_init_eq : forall fuel st n px added,
-  gen_UpdateNodeSeg_init fuel st n px added = do_upd_seg st n px added.
-Proof.
-  intros fuel st n px added. unfold gen_UpdateNodeSeg_init, gen_UpdateNodeSeg_apply, do_upd_seg, set_pixels. cbv zeta.
-  destruct (seg st) as [sg|] eqn:Es; [|reflexivity]. destruct (frame_ok sg (fst px)); [|reflexivity]. cbn [bind].
-  match goal with |- context [upd_seg st ?x] => set (s1 := upd_seg st x) end.
-  assert (Hs1 : seg s1 = Some (upd_frame (Z.to_nat (fst px)) (fun f => write_frame 0 f (snd px) (if added then n else 0)) sg)) by reflexivity.
-  unfold py_regionprops_update. rewrite Hs1.
-  change (rp_act (ft s1)) with (rp_act (ft st)). change (has_node s1 n) with (has_node st n). change (iou_act (ft s1)) with (iou_act (ft st)).
-  destruct (rp_update_frame s1 n) as (F1 & F2 & F3).
-  assert (E2 : forall s2, seg s2 = seg s1 -> ft s2 = ft s1 -> has_node s2 n = has_node st n ->
-            (do _u, s <- py_edge_update s2 (BUpdSeg n px added); do _u0, s0 <- gen_track_annotator_update fuel s (BUpdSeg n px added); Ok tt s0) =
-            (if negb (has_node st n) && iou_act (ft st) then Err ENetworkX s2
-             else Ok tt (iou_update_edges s2 (map (fun p => (p, n)) (predecessors s2 n) ++ map (fun c => (n, c)) (successors s2 n))))).
-  { intros s2 G1 G2 G3. unfold py_edge_update. rewrite G1, Hs1, G2, G3. change (iou_act (ft s1)) with (iou_act (ft st)).
-    destruct (iou_act (ft st)) eqn:Ei; [destruct (has_node st n)|]; cbn [negb andb bind]; rewrite ?andb_false_r;
-      try rewrite gen_track_annotator_update_other by exact I; try reflexivity.
-    unfold iou_update_edges. rewrite G1, Hs1, G2. change (iou_act (ft s1)) with (iou_act (ft st)). now rewrite Ei. }
-  destruct (rp_act (ft st)) as [|k0 ks] eqn:Er.
-  - cbn [bind]. rewrite andb_false_r. rewrite (rp_update_inactive s1 n) by (right; exact Er).
-    rewrite (E2 s1 eq_refl eq_refl eq_refl). destruct (negb (has_node st n) && iou_act (ft st)); reflexivity.
-  - destruct (has_node st n) eqn:Eh; cbn [negb andb bind]; [|reflexivity].
-    rewrite (E2 (rp_update s1 n) F1 F2 (eq_trans (F3 n) Eh)). reflexivity.
-Qed.
-Theorem gen_UpdateNodeSeg_inverse_eq : forall fuel st n px added,
-  gen_UpdateNodeSeg_inverse fuel st n px added = inv_basic st (BUpdSeg n px added).
-Proof. intros. unfold gen_UpdateNodeSeg_inverse. rewrite bind_ret. apply gen_UpdateNodeSeg_init_eq. Qed.
-
-(* ---------- AddEdge(tracks, edge, attributes) = do_add_edge ---------- *)
-Theorem gen_AddEdge_init_eq : forall fuel st u v oa,
-  gen_AddEdge_init fuel st (u, v) oa = do_add_edge st u v (match oa with Some a => a | None => [] end).
-Proof.
-  intros fuel st u v oa. unfold gen_AddEdge_init, gen_AddEdge_apply, do_add_edge. cbn [fst snd py_for].
-  destruct (has_node st u); cbn [negb bind]; [|reflexivity].
-  destruct (has_node st v); cbn [negb bind]; [|reflexivity].
-  unfold py_regionprops_update, py_edge_update. cbn [bind].
-  rewrite gen_track_annotator_update_other by exact I. reflexivity.
-Qed.
-
-(* ---------- DeleteEdge(tracks, edge) = do_del_edge ----------
-   the saved attributes are collected into a dict, key by key of features.edge_features: the model's list
-   of pairs is that dict as long as the registry lists no key twice (it is the key list of a Python dict) *)
-Definition saved_step (d : attrs) (acc : attrs) (k : Z) : attrs :=
-  match lookup k d with Some VNone => acc | Some v => acc ++ [(k, v)] | None => acc end.
-Lemma set_notin {V} k (v : V) d : ~ In k (keys d) -> set k v d = d ++ [(k, v)].
-Proof.
-  induction d as [|[k' w] r IH]; cbn; [reflexivity|]. intros H.
-  destruct (k =? k') eqn:E; [apply Z.eqb_eq in E; subst; tauto|]. rewrite IH; [reflexivity|tauto].
-Qed.
-Lemma saved_loop (F : Z -> attrs -> state -> res attrs) (d : attrs) (s : state) :
-  (forall k acc, F k acc s = Ok (match py_opt_value (lookup k d) with Some v => set k v acc | None => acc end) s) ->
-  forall reg acc, NoDup reg -> (forall k, In k reg -> ~ In k (keys acc)) ->
-  py_for reg acc s F = Ok (fold_left (saved_step d) reg acc) s.
-Proof.
-  intros HF. induction reg as [|k r IH]; intros acc Hnd Hacc; cbn [py_for fold_left]; [reflexivity|].
-  inversion Hnd as [|? ? Hk Hr]; subst. rewrite HF. cbn [bind].
-  assert (E : match py_opt_value (lookup k d) with Some v => set k v acc | None => acc end = saved_step d acc k).
-  { unfold saved_step, py_opt_value. destruct (lookup k d) as [[]|]; try reflexivity; apply set_notin, Hacc; now left. }
-  rewrite E. apply IH; [exact Hr|]. intros k' Hk'. unfold saved_step.
-  assert (Hb : ~ In k' (keys acc)) by (apply Hacc; now right).
-  destruct (lookup k d) as [[]|]; try exact Hb; unfold keys; rewrite map_app, in_app_iff; cbn; intros [H|[H|[]]]; try tauto; subst; tauto.
-Qed.
-Lemma saved_attrs_fold reg d : saved_attrs reg d = fold_left (saved_step d) reg [].
-Proof. reflexivity. Qed.
-
-Theorem gen_DeleteEdge_init_eq : forall fuel st u v, NoDup (reg_edge (ft st)) ->
-  gen_DeleteEdge_init fuel st (u, v) = do_del_edge st u v.
-Proof.
-  intros fuel st u v Hnd. unfold gen_DeleteEdge_init, do_del_edge. cbn [fst snd].
-  destruct (has_edge st u v) eqn:He; cbn [negb]; [|reflexivity].
-  match goal with |- context [py_for _ _ _ ?f] => set (F := f) end.
-  rewrite (saved_loop F (edge_attrs st u v) st); [|intros k acc; unfold F, py_edge_attr_get; cbn [fst snd]; rewrite He; cbn [bind]; destruct (py_opt_value _); reflexivity|exact Hnd|intros k _ []].
-  cbn [bind]. rewrite <- saved_attrs_fold.
-  unfold gen_DeleteEdge_apply, nx_remove_edge. cbn [fst snd]. rewrite He. cbn [bind].
-  unfold py_regionprops_update, py_edge_update. cbn [bind]. rewrite gen_track_annotator_update_other by exact I. reflexivity.
-Qed.
-Theorem gen_AddEdge_inverse_eq : forall fuel st u v a, NoDup (reg_edge (ft st)) ->
-  gen_AddEdge_inverse fuel st (u, v) a = inv_basic st (BAddEdge u v a).
-Proof. intros. unfold gen_AddEdge_inverse. rewrite bind_ret. now apply gen_DeleteEdge_init_eq. Qed.
-Theorem gen_DeleteEdge_inverse_eq : forall fuel st u v saved,
-  gen_DeleteEdge_inverse fuel st (u, v) saved = inv_basic st (BDelEdge u v saved).
-Proof. intros. unfold gen_DeleteEdge_inverse. rewrite bind_ret. apply (gen_AddEdge_init_eq fuel st u v (Some saved)). Qed.
-
-Lemma bind_assoc : forall A B C (r : res A) (f : A -> state -> res B) (h : B -> state -> res C),
-  bind (bind r f) h = bind r (fun a s => bind (f a s) h).
-Proof. destruct r; reflexivity. Qed.
-
-(* ---------- AddNode(tracks, node, attributes, pixels) = do_add_node ---------- *)
-Lemma has_node_nx_add_node st n : has_node (nx_add_node st n) n = true.
-Proof.
-  unfold nx_add_node, has_node. destruct (haskey n (nodes (g st))) eqn:E; [exact E|].
-  cbn. apply haskey_keys. unfold keys. rewrite map_app, in_app_iff. right. now left.
-Qed.
-Lemma set_attrs_loop (F : Z * value -> unit -> state -> res unit) n :
-  (forall kv s, has_node s n = true -> F kv tt s = Ok tt (set_node_attr s n (fst kv) (snd kv))) ->
-  forall (a : attrs) s, has_node s n = true ->
-  py_for a tt s F = Ok tt (fold_left (fun s kv => set_node_attr s n (fst kv) (snd kv)) a s).
-Proof.
-  intros HF. induction a as [|kv r IH]; intros s Hs; cbn [py_for fold_left]; [reflexivity|].
-  rewrite HF by exact Hs. cbn [bind]. apply IH. now rewrite has_node_sna.
-Qed.
-
-Theorem gen_AddNode_init_eq : forall fuel st n a px,
-  gen_AddNode_init fuel st n a px = do_add_node st n a px.
-Proof.
-  intros fuel st n a px. rewrite do_add_node_slice. unfold gen_AddNode_init.
-  destruct (negb (haskey KTime a)); [reflexivity|]. destruct (negb (haskey KTrack a)); [reflexivity|].
-  (* the position check: one key, or all keys of the list *)
-  assert (Hpos : (match px with
-                  | Some _ => Ok tt st
-                  | None => if pos_is_list st
-                            then if forallb (fun k => haskey k a) (pos_keys (ft st)) then Ok tt st else Err EValue st
-                            else if negb (haskey (pos_single st) a) then Err EValue st else Ok tt st
-                  end) = (if (match px with None => negb (all_in (pos_keys (ft st)) a) | Some _ => false end) then Err EValue st else Ok tt st)).
-  { destruct px as [p|]; [reflexivity|]. unfold pos_is_list, pos_single, all_in.
-    destruct (pos_keys (ft st)) as [|k [|k2 r]]; cbn [forallb hd negb]; try reflexivity.
-    - rewrite andb_true_r. destruct (haskey k a); reflexivity.
-    - destruct (haskey k a && (haskey k2 a && forallb (fun k0 => haskey k0 a) r)); reflexivity. }
-  rewrite Hpos. destruct (match px with None => negb (all_in (pos_keys (ft st)) a) | Some _ => false end); cbn [bind]; [reflexivity|].
-  unfold gen_AddNode_apply.
-  assert (Hpx : (match px with Some p => do _u, s <- set_pixels st p n; Ok tt s | None => Ok tt st end) =
-                (match px with Some p => set_pixels st p n | None => Ok tt st end))
-    by (destruct px; [apply bind_tt|reflexivity]).
-  rewrite Hpx, bind_assoc. apply bind_ext_l. intros [] s1. cbv zeta.
-  match goal with |- context [py_for _ _ _ ?f] => set (F := f) end.
-  change (if haskey n (nodes (g s1)) then s1 else _) with (nx_add_node s1 n).
-  rewrite (set_attrs_loop F n); [|intros [k v] s Hs; unfold F, py_set_node_attr; cbn [fst snd]; rewrite Hs; reflexivity|apply has_node_nx_add_node].
-  cbn [bind].
-  set (s2 := fold_left (fun s kv => set_node_attr s n (fst kv) (snd kv)) a (nx_add_node s1 n)).
-  assert (Hn2 : has_node s2 n = true) by (unfold s2; rewrite (proj2 (proj2 (fold_set_attrs_frame n a _))); apply has_node_nx_add_node).
-  assert (Hrp : py_regionprops_update s2 (BAddNode n a px) = Ok tt (rp_update s2 n)).
-  { unfold py_regionprops_update. destruct (seg s2) eqn:Es; [|now rewrite rp_update_inactive by auto].
-    destruct (rp_act (ft s2)) eqn:Er; [now rewrite rp_update_inactive by auto|]. now rewrite Hn2. }
-  rewrite Hrp. cbn [bind]. unfold py_edge_update. cbn [bind].
-  rewrite gen_track_annotator_update_eq by (intros; discriminate).
-  unfold book_track_annotator_update. destruct (negb (trk_act (ft (rp_update s2 n)))); cbn [bind]; [reflexivity|].
-  destruct (book_handle_add_node (rp_update s2 n) n) as [[] s|e s]; reflexivity.
-Qed.
-
-(* ---------- DeleteNode(tracks, node, pixels) = do_del_node ----------
-   The constructor reads the node's attributes key by key of features.node_features: the first read raises
-   KeyError for a node that is not in the graph -- if there is a key to read.  The hand model answers KeyError
-   at once; with an empty registry and a missing node the Python gets as far as graph.remove_node
-   (NetworkXError, after zeroing the pixels it was given): [del_node_needs_registry].  Every configuration the
-   property theorems talk about registers the time key (cfg_ok). *)
-Theorem gen_DeleteNode_init_eq : forall fuel st n pxo, NoDup (reg_node (ft st)) ->
-  has_node st n = true \/ reg_node (ft st) <> [] ->
-  gen_DeleteNode_init fuel st n pxo = do_del_node st n pxo.
-Proof.
-  intros fuel st n pxo Hnd Hreg. rewrite do_del_node_slice. unfold gen_DeleteNode_init.
-  match goal with |- context [py_for _ _ _ ?f] => set (F := f) end.
-  destruct (lookup n (nodes (g st))) as [d|] eqn:El.
-  - assert (Hn : has_node st n = true) by (unfold has_node, haskey; now rewrite El).
-    assert (Hd : forall k, attr st n k = lookup k d) by (intros k; unfold attr, node_attrs, getd; now rewrite El).
-    rewrite (saved_loop F d st); [|intros k acc; unfold F, py_node_attr_get; rewrite Hn, Hd; cbn [bind]; destruct (py_opt_value _); reflexivity|exact Hnd|intros k _ []].
-    cbn [bind]. rewrite <- saved_attrs_fold. cbv zeta.
-    set (saved := saved_attrs (reg_node (ft st)) d).
-    assert (Epx : (match pxo with Some p => Some p | None => get_pixels st n end) = (match pxo with Some p => Some p | None => get_pixels st n end)) by reflexivity.
-    set (px := match pxo with Some p => Some p | None => get_pixels st n end).
-    unfold gen_DeleteNode_apply.
-    assert (Hpx : (match px with Some p => do _u, s <- set_pixels st p 0; Ok tt s | None => Ok tt st end) =
-                  (match px with Some p => set_pixels st p 0 | None => Ok tt st end))
-      by (destruct px; [apply bind_tt|reflexivity]).
-    rewrite Hpx.
-    assert (Hsp : forall u s1, (match px with Some p => set_pixels st p 0 | None => Ok tt st end) = Ok u s1 -> has_node s1 n = true).
-    { intros u s1. destruct px as [p|]; [|intros H; inversion H; subst; exact Hn].
-      unfold set_pixels. destruct (seg st); [|discriminate]. destruct (frame_ok _ _); [|discriminate]. intros H. inversion H; subst. exact Hn. }
-    destruct (match px with Some p => set_pixels st p 0 | None => Ok tt st end) as [[] s1|e s1] eqn:Esp; cbn [bind]; [|reflexivity].
-    unfold nx_remove_node. rewrite (Hsp tt s1 eq_refl). cbn [bind].
-    unfold py_regionprops_update, py_edge_update. cbn [bind].
-    rewrite gen_track_annotator_update_eq by (intros; discriminate).
-    unfold book_track_annotator_update.
-    match goal with |- context [trk_act ?x] => destruct (negb (trk_act x)) end; cbn [bind]; [reflexivity|].
-    match goal with |- context [book_handle_delete_node ?s ?m ?sv] => destruct (book_handle_delete_node s m sv) as [[] s'|e s'] end; reflexivity.
-  - assert (Hn : has_node st n = false) by (unfold has_node, haskey; now rewrite El).
-    destruct Hreg as [H|H]; [congruence|].
-    destruct (reg_node (ft st)) as [|k r]; [congruence|]. cbn [py_for]. unfold F at 1, py_node_attr_get. rewrite Hn. reflexivity.
-Qed.
-Theorem gen_AddNode_inverse_eq : forall fuel st n a px, NoDup (reg_node (ft st)) ->
-  has_node st n = true \/ reg_node (ft st) <> [] ->
-  gen_AddNode_inverse fuel st n a px = inv_basic st (BAddNode n a px).
-Proof. intros. unfold gen_AddNode_inverse. rewrite bind_ret. now apply gen_DeleteNode_init_eq. Qed.
-Theorem gen_DeleteNode_inverse_eq : forall fuel st n saved px,
-  gen_DeleteNode_inverse fuel st n saved px = inv_basic st (BDelNode n saved px).
-Proof. intros. unfold gen_DeleteNode_inverse. rewrite bind_ret. apply gen_AddNode_init_eq. Qed.
-
-(* ---------- UpdateNodeAttrs(tracks, node, attrs) = do_upd_attrs ----------
-   [NoDup (keys new)]: the argument is a Python dict; the previous values are collected into a dict too *)
-Lemma protected_keys_eq st : annot_all_features st ++ [KTime] = protected_keys st.
-Proof. unfold annot_all_features, protected_keys. now rewrite <- !app_assoc. Qed.
-Lemma val_of_opt_value o : val_of_opt (py_opt_value o) = match o with Some v => v | None => VNone end.
-Proof. destruct o as [[]|]; reflexivity. Qed.
-
-Theorem gen_UpdateNodeAttrs_init_eq : forall fuel st n new, NoDup (keys new) ->
-  gen_UpdateNodeAttrs_init fuel st n new = do_upd_attrs st n new.
-Proof.
-  intros fuel st n new Hnd. unfold gen_UpdateNodeAttrs_init, do_upd_attrs. cbv zeta. rewrite protected_keys_eq.
-  (* the protected keys *)
-  assert (L1 : forall (l : attrs) s, py_for (keys l) tt s (fun k (_ : unit) s => if memz k (protected_keys st) then Err EValue s else Ok tt s) =
-                 if existsb (fun kv => memz (fst kv) (protected_keys st)) l then Err EValue s else Ok tt s).
-  { induction l as [|[k v] r IH]; intros s; cbn [keys map py_for existsb fst]; [reflexivity|].
-    destruct (memz k (protected_keys st)); cbn [bind orb]; [reflexivity|apply IH]. }
-  rewrite L1. destruct (existsb _ new); cbn [bind]; [reflexivity|].
-  destruct (lookup n (nodes (g st))) as [d|] eqn:El.
-  - assert (Hn : has_node st n = true) by (unfold has_node, haskey; now rewrite El).
-    assert (Hd : forall k, attr st n k = lookup k d) by (intros k; unfold attr, node_attrs, getd; now rewrite El).
-    (* the previous values *)
-    match goal with |- context [py_for (keys new) [] st ?f] => set (G := f) end.
-    assert (L2 : forall (l acc : list (Z * value)), NoDup (keys l) -> (forall k, In k (keys l) -> ~ In k (keys acc)) ->
-                   py_for (keys l) acc st G = Ok (acc ++ map (fun kv => (fst kv, match lookup (fst kv) d with Some v => v | None => VNone end)) l) st).
-    { induction l as [|[k v] r IH]; intros acc Hl Hacc; cbn [keys map py_for fst]; [now rewrite app_nil_r|].
-      inversion Hl as [|? ? Hk Hr]; subst. unfold G at 1, py_node_attr_get. rewrite Hn, Hd. cbn [bind]. rewrite val_of_opt_value.
-      rewrite set_notin by (apply Hacc; now left). rewrite (IH _ Hr).
-      - now rewrite <- app_assoc.
-      - intros k' Hk'. unfold keys. rewrite map_app, in_app_iff. cbn. intros [H|[H|[]]]; [revert H; apply Hacc; now right|subst; contradiction]. }
-    rewrite (L2 new [] Hnd (fun k _ H => H)). cbn [bind app].
-    (* the new values *)
-    unfold gen_UpdateNodeAttrs_apply.
-    match goal with |- context [py_for new tt st ?f] => set (H := f) end.
-    assert (L3 : forall (l : attrs) s, has_node s n = true -> py_for l tt s H = Ok tt (fold_left (fun s kv => apply_attr s n kv) l s)).
-    { induction l as [|[k v] r IH]; intros s Hs; cbn [py_for fold_left]; [reflexivity|].
-      unfold H at 1, apply_attr, py_pop_node_attr, py_set_node_attr. cbn [fst snd]. rewrite Hs.
-      destruct v; cbn [py_value_is_none bind]; apply IH; rewrite ?has_node_sna, ?has_node_dna; exact Hs. }
-    rewrite (L3 new st Hn). cbn [bind]. unfold py_regionprops_update, py_edge_update. cbn [bind].
-    rewrite gen_track_annotator_update_other by exact I. reflexivity.
-  - assert (Hn : has_node st n = false) by (unfold has_node, haskey; now rewrite El).
-    destruct new as [|[k v] r]; cbn [keys map py_for bind].
-    + unfold gen_UpdateNodeAttrs_apply. cbn [py_for bind]. unfold py_regionprops_update, py_edge_update. cbn [bind].
-      rewrite gen_track_annotator_update_other by exact I. reflexivity.
-    + unfold py_node_attr_get. rewrite Hn. reflexivity.
-Qed.
-Theorem gen_UpdateNodeAttrs_inverse_eq : forall fuel st n prev new, NoDup (keys prev) ->
-  gen_UpdateNodeAttrs_inverse fuel st n prev new = inv_basic st (BUpdAttrs n prev new).
-Proof. intros. unfold gen_UpdateNodeAttrs_inverse. rewrite bind_ret. now apply gen_UpdateNodeAttrs_init_eq. Qed.
-
-(* ---------- `action.inverse()` for an arbitrary basic action = inv_basic ----------
-   Python dispatches on the class of the action; [gen_inverse] is that dispatch over the generated methods. *)
-Definition gen_inverse (fuel : nat) (st : state) (b : basic) : res basic :=
-  match b with
-  | BAddNode n a px => gen_AddNode_inverse fuel st n a px
-  | BDelNode n saved px => gen_DeleteNode_inverse fuel st n saved px
-  | BAddEdge u v a => gen_AddEdge_inverse fuel st (u, v) a
-  | BDelEdge u v saved => gen_DeleteEdge_inverse fuel st (u, v) saved
-  | BUpdAttrs n prev new => gen_UpdateNodeAttrs_inverse fuel st n prev new
-  | BUpdSeg n px added => gen_UpdateNodeSeg_inverse fuel st n px added
-  | BUpdTrack start oldT newT oldL newL => gen_UpdateTrackIDs_inverse fuel st start oldT newT oldL newL
-  end.
-Definition inverse_dom (st : state) (b : basic) : Prop :=
-  match b with
-  | BAddNode n _ _ => NoDup (reg_node (ft st)) /\ (has_node st n = true \/ reg_node (ft st) <> [])
-  | BAddEdge _ _ _ => NoDup (reg_edge (ft st))
-  | BUpdAttrs _ prev _ => NoDup (keys prev)
-  | BUpdTrack _ _ _ _ _ => succ_trk st
-  | _ => True
-  end.
-Theorem gen_inverse_eq : forall fuel st b, inverse_dom st b -> fuel_ok st fuel ->
-  gen_inverse fuel st b = inv_basic st b.
-Proof.
-  intros fuel st b H Hfuel. destruct b; cbn [gen_inverse inverse_dom] in *.
-  - destruct H. now apply gen_AddNode_inverse_eq.
-  - apply gen_DeleteNode_inverse_eq.
-  - now apply gen_AddEdge_inverse_eq.
-  - apply gen_DeleteEdge_inverse_eq.
-  - now apply gen_UpdateNodeAttrs_inverse_eq.
-  - apply gen_UpdateNodeSeg_inverse_eq.
-  - now apply gen_UpdateTrackIDs_inverse_eq.
-Qed.
-(* the configuration the property theorems are stated for gives the registry half of [inverse_dom] *)
-Lemma cfg_ok_reg_nonempty st : cfg_ok st -> reg_node (ft st) <> [].
-Proof. intros (_ & _ & H & _) E. rewrite E in H. destruct H. Qed.
-
-(* the registry hypothesis of DeleteNode is needed: no node-feature key registered, node 7 not in the graph.
-   The Python zeroes the pixels it was given and then fails in graph.remove_node (NetworkXError); the hand
-   model answers KeyError with the array untouched. *)
-Example del_node_needs_registry :
-  let st0 := {| g := {| nodes := []; succs := [] |}; seg := Some [[5]];
-                ft := {| reg_node := []; reg_edge := []; pos_keys := []; rp_all := []; rp_act := [];
-                         iou_avail := false; iou_act := false; trk_act := true; lin_act := true |};
-                bk := {| trk_book := []; lin_book := []; max_trk := 0; max_lin := 0 |};
-                undo_stack := []; redo_stack := []; rlog := []; nctr := 0 |} in
-  (exists s, gen_DeleteNode_init 1 st0 7 (Some (0, [0])) = Err ENetworkX s /\ seg s = Some [[0]]) /\
-  do_del_node st0 7 (Some (0, [0])) = Err EKey st0.
-Proof. split; [eexists; split|]; vm_compute; reflexivity. Qed.
-(* ... and so is "no key twice": the model's saved attributes list the pair twice, a dict cannot *)
-Example reg_nodup_needed :
-  let st0 := {| g := {| nodes := [(1, []); (2, [])]; succs := [(1, [(2, [(8, VTok 3)])]); (2, [])] |}; seg := None;
-                ft := {| reg_node := []; reg_edge := [8; 8]; pos_keys := []; rp_all := []; rp_act := [];
-                         iou_avail := false; iou_act := false; trk_act := true; lin_act := true |};
-                bk := {| trk_book := []; lin_book := []; max_trk := 0; max_lin := 0 |};
-                undo_stack := []; redo_stack := []; rlog := []; nctr := 0 |} in
-  (exists s, gen_DeleteEdge_init 1 st0 (1, 2) = Ok (BDelEdge 1 2 [(8, VTok 3)]) s) /\
-  (exists s, do_del_edge st0 1 2 = Ok (BDelEdge 1 2 [(8, VTok 3); (8, VTok 3)]) s).
-Proof. split; eexists; vm_compute; reflexivity. Qed.
-
-(*PRINT-ASSUMPTIONS*)
-Print Assumptions gen_get_next_track_id_eq.
-Print Assumptions gen_get_next_lineage_id_eq.
-Print Assumptions gen_get_track_id_eq.
-Print Assumptions gen_get_lineage_id_char.
-Print Assumptions gen_get_lineage_id_eq.
-Print Assumptions gen_get_track_neighbors_eq.
-Print Assumptions gen_has_track_id_at_time_eq.
-Print Assumptions gen_get_new_node_ids_eq.
-Print Assumptions gen_get_new_node_ids_same_fuel.
-Print Assumptions gen_undo_eq.
-Print Assumptions gen_redo_eq.
-Print Assumptions hist_undo_generated.
-Print Assumptions hist_redo_generated.
-Print Assumptions gen_add_to_tracklet_bookkeeping_eq.
-Print Assumptions gen_remove_from_tracklet_bookkeeping_eq.
-Print Assumptions gen_add_to_lineage_bookkeeping_eq.
-Print Assumptions gen_remove_from_lineage_bookkeeping_eq.
-Print Assumptions gen_update_tracklet_bookkeeping_eq.
-Print Assumptions gen_update_lineage_bookkeeping_eq.
-Print Assumptions gen_handle_add_node_eq.
-Print Assumptions do_add_node_slice.
-Print Assumptions gen_handle_delete_node_eq.
-Print Assumptions do_del_node_slice.
-Print Assumptions gen_handle_update_track_ids_eq.
-Print Assumptions do_upd_track_slice.
-Print Assumptions W_dict_walk_dom.
-Print Assumptions walk_dom_needed.
-Print Assumptions gen_track_annotator_update_eq.
-Print Assumptions gen_UpdateTrackIDs_init_eq.
-Print Assumptions gen_UpdateTrackIDs_inverse_eq.
-Print Assumptions gen_UpdateNodeSeg_init_eq.
-Print Assumptions gen_UpdateNodeSeg_inverse_eq.
-Print Assumptions gen_AddEdge_init_eq.
-Print Assumptions gen_DeleteEdge_init_eq.
-Print Assumptions gen_AddEdge_inverse_eq.
-Print Assumptions gen_DeleteEdge_inverse_eq.
-Print Assumptions gen_AddNode_init_eq.
-Print Assumptions gen_DeleteNode_init_eq.
-Print Assumptions gen_AddNode_inverse_eq.
-Print Assumptions gen_DeleteNode_inverse_eq.
-Print Assumptions gen_UpdateNodeAttrs_init_eq.
-Print Assumptions gen_UpdateNodeAttrs_inverse_eq.
-Print Assumptions gen_inverse_eq.
-Print Assumptions del_node_needs_registry.
-Print Assumptions reg_nodup_needed.
-Print Assumptions gen_handle_update_track_ids_at_eq.
-Print Assumptions gen_handle_update_track_ids_fuel.
-Print Assumptions gen_UpdateTrackIDs_init_fuel.
-Print Assumptions gen_UpdateTrackIDs_init_WF.
+From FT Require Export Gen.Core_gen.
+From FT Require Export Proofs.CoreTieBase Proofs.CoreTieQueries Proofs.CoreTieTracks Proofs.CoreTieHistory Proofs.CoreTieAnnot Proofs.CoreTieActions.
